@@ -3,11 +3,28 @@ package main
 import (
 	"fmt"
 	"math/rand/v2"
+	"strings"
 
 	"verif/harness/internal/pdfgen"
 )
 
 func i64(v int64) *int64 { return &v }
+
+// limitValue is the effective value of the named limit under l.
+func limitValue(name string, l Limits) int64 {
+	e := l.effective()
+	switch name {
+	case "MaxObjectCount":
+		return int64(e.MaxObjectCount)
+	case "MaxXRefEntries":
+		return int64(e.MaxXRefEntries)
+	case "MaxObjectStreamCount":
+		return int64(e.MaxObjectStreamCount)
+	case "MaxObjectStreamFirst":
+		return e.MaxObjectStreamFirst
+	}
+	return 0
+}
 
 // ---------------------------------------------------------------------------
 // family F4: counts and offsets in cross-reference streams and object streams
@@ -73,7 +90,12 @@ func (g *genCtx) famStructure() []*plan {
 							c.Exp.Want, c.Exp.Classes = "reject-or-repaired", []string{"xrefentries"}
 						}
 						container, extra := container, extra
-						add("struct/index/"+rel, c, func(pl *plan) ([]byte, error) {
+						how := "explicit-index"
+						if extra == 0 {
+							how = "from-size" // objects 0..5 without holes: no /Index, the entry count is /Size
+						}
+						c.Exp.Pipe = how
+						add("struct/index/"+how+"/"+rel, c, func(pl *plan) ([]byte, error) {
 							b, _, err := assemble(docParts{container: container, extraObjs: extra})
 							return b, err
 						})
@@ -98,9 +120,9 @@ func (g *genCtx) famStructure() []*plan {
 				{"size-1e18", xrefStmSpec{Size: i64(1_000_000_000_000_000_000)}, Limits{}, "reject", nil, "MaxObjectCount", 1_000_000_000_000_000_000},
 				{"size-small-1e6", xrefStmSpec{Size: i64(1_000_000)}, Limits{Oc: 1000}, "limit", []string{"size"}, "MaxObjectCount", 1_000_000},
 				// /Size within MaxObjectCount, no /Index: the entry count is /Size
-				{"noindex-size-over-entries", xrefStmSpec{Size: i64(5000), Index: []int64{}}, Limits{Xe: 1000}, "limit", []string{"xrefentries"}, "MaxXRefEntries", 5000},
-				{"index-count-over-entries", xrefStmSpec{Size: i64(100_000), Index: []int64{0, 50_000}}, Limits{Xe: 10_000}, "limit", []string{"xrefentries"}, "MaxXRefEntries", 50_000},
-				{"index-two-sections-over-entries", xrefStmSpec{Size: i64(100_000), Index: []int64{0, 6000, 50_000, 6000}}, Limits{Xe: 10_000}, "limit", []string{"xrefentries"}, "MaxXRefEntries", 12_000},
+				{"noindex-size-over-entries", xrefStmSpec{Size: i64(5000), NoIndex: true, PadTo: 5000 * 8}, Limits{Xe: 1000}, "limit", []string{"xrefentries"}, "MaxXRefEntries", 5000},
+				{"index-count-over-entries", xrefStmSpec{Size: i64(100_000), Index: []int64{0, 50_000}, PadTo: 50_000 * 8}, Limits{Xe: 10_000}, "limit", []string{"xrefentries"}, "MaxXRefEntries", 50_000},
+				{"index-two-sections-over-entries", xrefStmSpec{Size: i64(100_000), Index: []int64{0, 6000, 50_000, 6000}, PadTo: 12_000 * 8}, Limits{Xe: 10_000}, "limit", []string{"xrefentries"}, "MaxXRefEntries", 12_000},
 				{"index-count-default-plus1", xrefStmSpec{Size: i64(10_000_000), Index: []int64{0, 10_000_000}}, Limits{Xe: 9_999_999}, "limit", []string{"xrefentries"}, "MaxXRefEntries", 10_000_000},
 				// several checks compete: any refusal is right, success is not
 				{"index-count-1e9", xrefStmSpec{Index: []int64{0, 1_000_000_000}}, Limits{}, "reject", nil, "MaxXRefEntries", 1_000_000_000},
@@ -118,19 +140,31 @@ func (g *genCtx) famStructure() []*plan {
 			for _, f := range fs {
 				f := f
 				container := container
+				site := "xref-size"
+				switch {
+				case strings.HasPrefix(f.name, "w-"):
+					site = "xref-w"
+				case strings.Contains(f.name, "index"):
+					site = "xref-index"
+				}
 				c := Case{Entry: "Read", Container: container, Strict: strict, Lim: f.lim,
-					Exp: Expect{Limit: f.limit, Site: "xref-" + f.name, Rel: "forced", Value: f.value, Want: f.want, Classes: f.class}}
+					Exp: Expect{Limit: f.limit, Site: site, Rel: f.name, Value: f.value, Want: f.want, Classes: f.class}}
 				if f.want == "limit" || f.want == "reject" {
 					c.Exp.Want = "reject-or-repaired"
 				}
+				c.Exp.LimitV = limitValue(f.limit, f.lim)
 				// what the declared counts may cost while they stay within MaxObjectCount / MaxXRefEntries
 				eff := f.lim.effective()
 				if f.xs.Size != nil && *f.xs.Size > 0 && *f.xs.Size <= int64(eff.MaxObjectCount) {
 					c.Exp.MemExtra += 16 * *f.xs.Size
 				}
-				c.Lim.D, c.Lim.S = 64*kib, 64*kib
+				c.Lim.D, c.Lim.S = mib, mib
 				add("struct/forced/"+f.name, c, func(pl *plan) ([]byte, error) {
-					b, _, err := assemble(docParts{container: container, xs: f.xs, extraObjs: 2})
+					extra := 2
+					if f.xs.NoIndex {
+						extra = 0 // objects 0..5 without holes: the rows number themselves
+					}
+					b, _, err := assemble(docParts{container: container, xs: f.xs, extraObjs: extra})
 					return b, err
 				})
 			}
@@ -220,8 +254,13 @@ func (g *genCtx) famStructure() []*plan {
 		}
 		for _, f := range fs {
 			f := f
+			site := "objstm-n"
+			if strings.HasPrefix(f.name, "first") {
+				site = "objstm-first"
+			}
 			c := Case{Entry: "Read", Container: "objstm", Strict: strict, Lim: f.lim,
-				Exp: Expect{Limit: f.limit, Site: "objstm-" + f.name, Rel: "forced", Value: f.value, Want: f.want, Classes: f.class}}
+				Exp: Expect{Limit: f.limit, Site: site, Rel: f.name, Value: f.value, Want: f.want, Classes: f.class,
+					LimitV: limitValue(f.limit, f.lim)}}
 			c.Lim.D, c.Lim.S = 64*kib, 64*kib
 			add("struct/forced-objstm/"+f.name, c, func(pl *plan) ([]byte, error) {
 				os := f.os
@@ -426,7 +465,7 @@ func (g *genCtx) famImages() []*plan {
 // default limit costs pdfcpu more than 2 GiB of RSS (bytes.Buffer doubling), so the default value of
 // MaxDecodeBytes itself is exercised where it is cheap (a predictor row one column wider than the
 // default limit; /Length, /Size, /N, /First, depth and pixel counts against their defaults in the
-// other families) and the heavy bombs run under explicit limits of 128 MiB (256 MiB in the thorough tier).
+// other families) and the heavy bombs run under explicit limits of 64 MiB (128 and 256 MiB in the thorough tier).
 
 func (g *genCtx) famDefaults() []*plan {
 	var out []*plan
@@ -439,7 +478,10 @@ func (g *genCtx) famDefaults() []*plan {
 		site string
 		ent  string
 	}
-	big := 128 * mib
+	big := 64 * mib
+	if g.thorough {
+		big = 128 * mib
+	}
 	cases := []dc{
 		{"stream-flate-plus1", "stream", pFlate, big, big + 1, "streamdict", "Decode"},
 		{"doc-content-flate-plus1", "doc", pFlate, big, big + 1, "content", "ExtractContent"},
